@@ -248,7 +248,17 @@ def finish(prop, tier, seed, results, t0, *, level="model_checking", bounds=None
             key = why[:90]
             reasons[key] = reasons.get(key, 0) + 1
     funcs = sorted(set(f for r in results for f in r.get("funcs", [])))
-    samples = [r["sample"] for r in results if r.get("sample")][:3]
+    cands = [r["sample"] for r in results if r.get("sample")]
+    cands.sort(key=lambda x: (-int("example_obligation" in x), -int(bool(x.get("path_condition")))))
+    samples, seen_ops = [], set()
+    for x in cands:                       # a handful of cases from different operations, richest first
+        opname = x["sig"].split("{")[0]
+        if opname in seen_ops:
+            continue
+        seen_ops.add(opname)
+        samples.append(x)
+        if len(samples) >= 5:
+            break
     if not samples:
         samples = [{"sig": r["sig"]} for r in results[:3]]
     cov = {
